@@ -2,5 +2,13 @@
 
 package starlarkstruct
 
+import "unsafe"
+
 // VerifFrozen reports the frozen flag of a struct (read-only).
 func VerifFrozen(s *Struct) bool { return s.frozen }
+
+// VerifHeader returns a copy of the bytes of the Struct object itself and the
+// offset of its frozen flag (read-only).
+func VerifHeader(s *Struct) (b []byte, frozenOff int) {
+	return append([]byte(nil), unsafe.Slice((*byte)(unsafe.Pointer(s)), int(unsafe.Sizeof(*s)))...), int(unsafe.Offsetof(s.frozen))
+}
